@@ -61,6 +61,12 @@ def run(ctx):
         ctx.prove_dep('props/C08.v', 'a delivery runs Channel::send (WithRawSiginfo / WithOrigin exfiltration)')
     LC.lockstep(ctx, [LC.mon_c08])
     LC.nested_sweep(ctx, ('panic', 'hang'))
+    # ... and with C15: the flag / conditional-shutdown actions run inside the handler too; ending the process
+    # there must go through _exit (no exit hooks, no locks, no waiting)
+    import c15
+    if ctx.harness(['p_c15']) and ctx.translate(c15.COMPONENTS):
+        ctx.prove_dep('props/C15.v', 'the conditional-shutdown / flag actions are built-in actions of a delivery')
+        c15.shutdown_probe(ctx)
     ctx.coverage['rule'] = ('lock-step scenarios as C01 (a delivery arriving at every boundary of register/unregister/unregister_signal and of other deliveries); '
                             'monitors: operation kinds of delivery activities, no failed/blocked step, step count <= 10 + #actions, '
                             'allocator wrapper = 0 allocations/releases inside deliveries; plus one real dispatch with all built-in actions on full pipes')
@@ -69,6 +75,17 @@ def run(ctx):
 def replay(ctx, path):
     case = json.load(open(path))
     sc = case.get('case', {}).get('scenario')
+    if case.get('case', {}).get('c15_script'):
+        import c15
+        ctx.harness(['p_c15'])
+        ops = [tuple(o) for o in case['case']['c15_script']]
+        rc, impl, raw = c15.run_impl([('replay', ops)])
+        ex = c15.expected(c15.NB, c15.NU, c15.strip_env(ops))
+        print('script', ops); print('implementation', impl.get(0)); print('expected      ', ex)
+        if impl.get(0) != ex:
+            print('REPRODUCED:', c15.clause_of(c15.NB, c15.NU, c15.strip_env(ops), impl.get(0), ex))
+            return 1
+        return 0
     if case.get('case', {}).get('nested') or (sc and sc.get('system') == 'channel'):
         import ls_channel as LC
         return LC.replay_case(ctx, path, [LC.mon_c08])
